@@ -31,3 +31,69 @@ package preempt
 //@   ensures [notSelf] result ==> job.UID != preemptor.UID
 //@   ensures [minRuntimeFilter] result ==> framework.preemptVictimOK(ssn, preemptor, job)
 //@ end
+
+// ---- exec2: the per-preemptor attempt and the Execute loop (C05 / C06 / C03 / C10) ------------------------
+//@ import common_info "github.com/NVIDIA/KAI-scheduler/pkg/scheduler/api/common_info"
+//@ define sessionJobsOK(ssn *framework.Session) bool = (forall k in ssn.ClusterInfo.PodGroupInfos :: podgroup_info.allTasksOK(ssn.ClusterInfo.PodGroupInfos[k]) && podgroup_info.setsOK(ssn.ClusterInfo.PodGroupInfos[k])) && (forall q in ssn.ClusterInfo.Queues :: ssn.ClusterInfo.Queues[q] != nil)
+
+//@ import solvers "github.com/NVIDIA/KAI-scheduler/pkg/scheduler/actions/common/solvers"
+// One preemptor: the body is verified; only the two facts named by `trust` are assumed (see the notes).
+// C08/C07: "a non-preemptible ... keeps its queue's non-preemptible allocation within deserved quota": a preemptor that the
+// non-preemptible-over-quota callback rejects is not served and no statement is handed back.
+// C03: a preemptor is reported as served only if its gang is satisfied in the state the returned statement describes.
+// C06: "Every such eviction is committed together with the bind or nomination of the workload it was made for": the
+// statement handed back with success is the solver's statement and meets the preconditions of (*Statement).Commit.
+// The ghost mark common.failedAttempt records the outcome for the caller's table of failed jobs.
+//@ func attemptToPreemptForPreemptor
+//@   props C05 C06 C03 C08 C10
+//@   usestable Session.ClusterInfo
+//@   requires ssn != nil && ssn.ClusterInfo != nil && preemptor != nil
+//@   assume podgroup_info.setsOK(preemptor) && podgroup_info.allTasksOK(preemptor)
+//@   note assume setsOK/allTasksOK: data invariant of the snapshot's jobs; the caller's loop cannot carry it through its `modifies *` steps (attempt, Commit) - same convention as AllocateJob
+//@   modifies *
+//@   ensures [quotaGate] !old(framework.firstQuotaOK(ssn, preemptor)) ==> !result0 && result1 == nil
+//@   ensures [successMeansGangSatisfied] result0 ==> solvers.gangSat(preemptor)
+//@   trust [successIsCommittable] result0 ==> result1 != nil && framework.commitReady(result1) && framework.wfLog(result1) && framework.flatLog(result1)
+//@   note trust [successIsCommittable]: not derivable from the contract of (*JobSolver).Solve (its result0 is computed from the job's counters after whole-heap havocs; "solved ==> the returned statement is the open, well-formed, flat log of the last prefix" needs the unmechanised exact-restoration argument of C13)
+//@   trust [outcomeRecorded] common.failedAttempt(preemptor) == !result0
+//@   note trust [outcomeRecorded]: definition of the ghost mark (a ghost can only be written by an assumed clause); it carries "this job's attempt just failed" to the precondition [recordsOnlyFailedJobs] of UpdateRepresentative
+//@ end
+
+// C05: "a pending workload obtains capacity by preempting a strictly lower-priority preemptible workload of its
+// own queue, within one cycle" / "a wrong job-signature shortcut ... silently starves workloads". Preempt victims
+// are jobs of the PREEMPTOR'S OWN QUEUE (buildFilterFuncForPreempt [sameQueue]), so that a job failed says
+// something only about later jobs of the SAME queue: a popped job is skipped without an attempt only on the answer
+// of a table of failed jobs that holds jobs of ITS OWN queue only - precondition [ownQueueScope] of
+// common.(*MinimalJobRepresentatives).IsEasierToSchedule / UpdateRepresentative (no table of this action is
+// declared cluster-wide), proved at both call sites from the loop invariants below over the per-queue directory of
+// tables (the local map smallestFailedJobsByQueue; an engine limit: heap objects carry no type, so the invariant cannot
+// be quantified over "every directory created by this run" instead of naming the local):
+//   [tablesExist] [storedJobsExist] every table registered under a queue is well-formed (no nil table, map or stored job;
+//                      the allocated(..) conjuncts are heap-closedness facts the stable-field reasoning needs),
+//   [perQueueScope]    and holds only jobs of that queue,
+//   [tablesSeparate]   tables of different queues share nothing (recording a failure in one leaves the others alone).
+// A skipped job lost against a stored failed job of its own signature AND its own queue (IsEasierToSchedule
+// [falseNamesStoredRepresentative] [skipOnlyWithinScope]); every other popped job is handed to
+// attemptToPreemptForPreemptor.
+// C06: "Every such eviction is committed together with the bind or nomination of the workload it was made for":
+// statement.Commit() is reached only with the statement a successful attempt returned (preconditions of Commit,
+// proved at the call site); after a failed attempt nothing is committed and only then is the job recorded
+// (precondition [recordsOnlyFailedJobs] of UpdateRepresentative).
+// C05 "within one cycle": the action ends only when the job order is empty - every candidate job was popped and either
+// skipped for the reason above or attempted ([orderDrained]; a failed attempt does not stop the loop).
+// C10: no panic on any path (a non-empty order yields a job; the statement is dereferenced only after success).
+//@ func (*preemptAction).Execute
+//@   props C05 C06 C03 C10
+//@   usestable MinimalJobRepresentatives.representatives map[common_info.SchedulingConstraintsSignature]*podgroup_info.PodGroupInfo PodGroupInfo.Queue Session.ClusterInfo
+//@   requires ssn != nil && ssn.ClusterInfo != nil && ssn.Config != nil && sessionJobsOK(ssn)
+//@   requires [queueDepthNotZero] ssn.GetJobsDepth("preempt") != 0
+//@   modifies *
+//@   loop 1
+//@     modifies *
+//@     invariant [tablesExist] forall q in smallestFailedJobsByQueue :: smallestFailedJobsByQueue[q] != nil && allocated(smallestFailedJobsByQueue[q]) && smallestFailedJobsByQueue[q].representatives != nil && allocated(smallestFailedJobsByQueue[q].representatives)
+//@     invariant [tablesSeparate] forall q1 in smallestFailedJobsByQueue :: forall q2 in smallestFailedJobsByQueue :: q1 != q2 ==> smallestFailedJobsByQueue[q1].representatives != smallestFailedJobsByQueue[q2].representatives
+//@     invariant [storedJobsExist] forall q in smallestFailedJobsByQueue :: forall k in smallestFailedJobsByQueue[q].representatives :: smallestFailedJobsByQueue[q].representatives[k] != nil && allocated(smallestFailedJobsByQueue[q].representatives[k])
+//@     invariant [perQueueScope] forall q in smallestFailedJobsByQueue :: forall k in smallestFailedJobsByQueue[q].representatives :: smallestFailedJobsByQueue[q].representatives[k].Queue == q
+//@   ensures [orderDrained] utils.orderEmpty(jobsOrderByQueues)
+//@ end
+// ---- end exec2 ----
